@@ -34,9 +34,7 @@ class Run(object):
         from minecraft.networking.connection import Connection
         sc = sched.Sched()
         net = sim.Net([sim.Server([], end='idle')], idle_limit=10 ** 9).install()
-        saved = (C.RLock, C.deque)
-        C.RLock = lambda: sched.InstrLock(sc)
-        C.deque = sched.make_deque(sc)
+        undo = sched.instrument(C, sc)
         net.switch_hook = lambda what: sc.yield_point(what)
         Raw = make_packets()
         self.sc, self.net = sc, net
@@ -44,7 +42,7 @@ class Run(object):
         try:
             conn = Connection('localhost', 25565, username='user', allowed_versions={757}, handle_exception=False)
             conn.connect()
-            for p, tag in zip(list(conn._outgoing_packet_queue), (-1, -2)):
+            for p, tag in zip(list(sched.find_queue(conn)), (-1, -2)):
                 p.tag = tag
             if self.comp is not None:
                 conn.options.compression_enabled = True
@@ -77,7 +75,7 @@ class Run(object):
                 run_ = sc.runnable()
                 live_users = [t for t in users if not sc.workers[t].finished]
                 nw = sc.workers[0]
-                if not live_users and (nw.finished or (nw.pending[0] == 'select' and not conn._outgoing_packet_queue)):
+                if not live_users and (nw.finished or (nw.pending[0] == 'select' and not sched.find_queue(conn))):
                     break
                 if not run_:
                     self.deadlock = True
@@ -97,10 +95,10 @@ class Run(object):
                 steps += 1
             self.steps, self.preempt, self.decisions = steps, preempt, decisions
             self.errors = {t: w.error for t, w in sc.workers.items() if w.error not in (None, 'end-of-script')}
-            self.queue_left = [getattr(p, 'tag', None) for p in conn._outgoing_packet_queue]
+            self.queue_left = [getattr(p, 'tag', None) for p in sched.find_queue(conn)]
         finally:
             sc.kill_all()
-            C.RLock, C.deque = saved
+            undo()
             net.switch_hook = None
             net.uninstall()
         self.events = list(sc.events)
